@@ -164,19 +164,38 @@ def check(run: Run) -> None:
             R.k2_never_after(run, "C20.c", fl, touch, R.either(a, b), f"{fname}: a mutation after the trailing touch()")
             R.k2_follow(run, "C20.c", fl, lambda n: n.id == fl.cfg.entry, touch, f"{fname}: every application ends with touch()", exits="normal")
 
-    with run.obligation("C20.d", "K1", "capture skips exactly the children without a value (TSD: !valid)"):
-        fa = R.fn(run, DELTA, "capture_delta_tsd")
-        cn = R.aliases_of(fa)
-        lp = [l for l in R.loops(fa) if isinstance(l, C.RangeFor) and "modified_items" in cn(l.range)]
-        run.sites(len(lp), 1, "modified_items loop")
-        skips = [cn(s.cond) for s in lp[0].body.walk() if isinstance(s, C.If) and any(isinstance(x, C.Continue) for x in R._own_jumps(s.then)) and
-                 not R.calls(s.then, "set_item_copy")]
-        run.count(1, "C20.d")
-        if skips != ["!child.valid()"]:
-            run.finding("C20.d", "capture_delta_tsd:skips", f"capture may only skip children without a value: {skips}", loc=fa.loc(lp[0]))
-        sh = R.loop_shape(lp[0], cn)
-        if sh["breaks"] or sh["returns"]:
-            run.finding("C20.d", "capture_delta_tsd:early-exit", "every modified item must be captured", loc=fa.loc(lp[0]))
+    with run.obligation("C20.d", "K1+K7", "capture skips exactly the children without a value: TSD and TSL visit every modified item and skip iff "
+                        "!child.valid(); TSB visits every field and skips iff !child.modified() || !child.valid(); no early exit"):
+        def disj(e, cn):
+            if isinstance(e, C.Binary) and e.op == "||":
+                return disj(e.l, cn) | disj(e.r, cn)
+            return {cn(e).replace(" ", "")}
+        n = 0
+        for name, want in (("capture_delta_tsd", {"!child.valid()"}), ("capture_delta_tsl", {"!child.valid()"}),
+                           ("capture_delta_tsb", {"!child.modified()", "!child.valid()"})):
+            fa = R.fn(run, DELTA, name)
+            cn = R.aliases_of(fa)
+            if name == "capture_delta_tsb":
+                lp = [l for l in R.loops(fa) if isinstance(l, C.For) and l.cond is not None and "bundle.size()" in cn(l.cond)]
+            else:
+                lp = [l for l in R.loops(fa) if isinstance(l, C.RangeFor) and "modified_items" in cn(l.range)]
+            run.sites(len(lp), 1, f"{name} child loop")
+            n += 1
+            guards = [s for s in lp[0].body.walk() if isinstance(s, C.If) and any(isinstance(x, C.Continue) for x in R._own_jumps(s.then)) and
+                      not R.calls(s.then, "set_item_copy") and not R.calls(s.then, "set")]
+            got = set()
+            for g in guards:
+                got |= disj(g.cond, cn)
+            run.count(1, f"C20.d.{name}")
+            if got != want:
+                run.finding("C20.d", f"{name}:skips", f"{name} may skip a child only when {sorted(want)}; it skips when {sorted(got)} (a stricter guard drops "
+                            "ticks of children that are valid but not all-valid, a weaker one captures children without a value)", loc=fa.loc(lp[0]))
+            sh = R.loop_shape(lp[0], cn)
+            if sh["breaks"] or sh["returns"]:
+                run.finding("C20.d", f"{name}:early-exit", "every modified child must be captured", loc=fa.loc(lp[0]))
+            if name == "capture_delta_tsb" and not (sh.get("init") == "0" and sh.get("cond_op") == "<" and sh.get("step") == "++"):
+                run.finding("C20.d", f"{name}:loop", f"the bundle capture must visit every field once: {sh}", loc=fa.loc(lp[0]))
+        run.sites(n, 3, "container captures")
 
     with run.obligation("C20.e", "K1+K3", "dense record: returns iff not modified or unobservable; pads while size < cycle_offset(now) then pushes the delta; "
                         "refuses gaps > max_dense_cycles"):
@@ -266,6 +285,46 @@ def check(run: Run) -> None:
         if not _has_static_true(run, "replay_impl", "schedule_on_start"):
             run.finding("C20.f", "replay:schedule-on-start", "replay must schedule itself at start", loc=MEM)
 
+    with run.obligation("C20.h", "K7", "record side and replay side agree on the EMPTY structural delta of sets and dictionaries: a tick the recorder "
+                        "keeps (delta_is_observable) is a tick the replayer applies (delta_has_effect), and a child that did not tick is never captured "
+                        "as a value the replayer treats as a tick (two KNOWN FINDINGS on the current tree)"):
+        n = 0
+        for kind, obs, eff in (("tss", "observable_set", "delta_has_effect_tss"), ("tsd", "observable_dict", "delta_has_effect_tsd")):
+            fo = R.fn(run, DELTA, obs)
+            fe = R.fn(run, DELTA, eff)
+            co, ce = R.aliases_of(fo), R.aliases_of(fe)
+            # record side: a modified VALID series is observable whatever the delta contains
+            valid_first = [s for s in fo.body.stmts if isinstance(s, C.If) and co(s.cond).replace(" ", "") == "input.valid()" and
+                           [co(r.e) for r in R.find(s.then, lambda x: isinstance(x, C.Return))] == ["true"]]
+            # replay side: the fall-through for a delta without structural content
+            last = fe.body.stmts[-1]
+            tail = ce(last.e).replace(" ", "") if isinstance(last, C.Return) and last.e is not None else None
+            n += 1
+            run.count(1, f"C20.h.{kind}")
+            run.sample({"rule": "C20.h", "kind": kind, "recorder_keeps_empty_tick_of_valid_series": bool(valid_first), "replay_fallthrough": tail})
+            if tail is None:
+                raise AnalysisError("model-mismatch", f"{eff}: the empty-delta fall-through is not a return statement")
+            if valid_first and tail != "true":
+                run.finding("C20.h", f"{eff}:recorded-empty-tick-dropped", f"{obs} keeps the tick of a VALID series whose delta is empty (e.g. a key added and "
+                            f"removed in one cycle) but {eff} returns `{tail}` for it: the recorded cycle is not replayed", loc=fe.loc(last))
+        run.sites(n, 2, "keyed shapes")
+        fa = R.fn(run, DELTA, "capture_delta_tsb")
+        cn = R.aliases_of(fa)
+        pre = R.calls(fa, "initialize_tsb_delta_defaults")
+        fd = R.fn(run, DELTA, "initialize_tsb_delta_defaults")
+        cd = R.aliases_of(fd)
+        fills = [c for c in R.calls(fd, "set") if any("empty" in cd(a) for a in c.args)]
+        effs = {}
+        for eff in ("delta_has_effect_tss", "delta_has_effect_tsd"):
+            fe = R.fn(run, DELTA, eff)
+            last = fe.body.stmts[-1]
+            effs[eff] = R.aliases_of(fe)(last.e).replace(" ", "") if isinstance(last, C.Return) and last.e is not None else None
+        run.count(1, "C20.h.tsb-default")
+        if pre and fills and any(v not in ("false",) for v in effs.values()):
+            run.finding("C20.h", "capture_delta_tsb:unticked-collection-field-captured-as-empty-tick", "capture_delta_tsb pre-fills every collection field that "
+                        "did NOT tick with its empty delta, and the replay side treats an empty delta as a (validating) tick of a not-yet-valid set / "
+                        f"dictionary ({effs}): after replay the field is valid and modified although the original never ticked it", loc=fa.loc(pre[0]))
+
 
 def _method(run: Run, struct: str, name: str) -> C.FuncAST:
     fi = run.tree.file(MEM)
@@ -323,6 +382,8 @@ def _check_capture(run: Run, fa: C.FuncAST, sources, fname: str, via=None) -> No
 
 
 VARIANTS = [
+    {"id": "d-tsl-capture-requires-all-valid", "expect": "C20.d", "edits": [{"file": DELTA, "find": "            for (const auto &[index, child] : list.modified_items())\n            {\n                if (!child.valid()) { continue; }", "replace": "            for (const auto &[index, child] : list.modified_items())\n            {\n                if (!child.all_valid()) { continue; }"}]},
+    {"id": "d-tsb-capture-ignores-modified", "expect": "C20.d", "edits": [{"file": DELTA, "find": "                if (!child.modified() || !child.valid()) { continue; }", "replace": "                if (!child.valid()) { continue; }"}]},
     {"id": "a-tss-apply-is-tsd", "expect": "C20.a", "edits": [{"file": "src/hgraph/types/metadata/ts_data_slot_ops.cpp", "find": ".apply_delta_impl          = &ts_data_detail::apply_delta_tss,", "replace": ".apply_delta_impl          = &ts_data_detail::apply_delta_tsd,"}]},
     {"id": "b-fields-swapped-on-capture", "expect": "C20.b", "edits": [{"file": DELTA, "find": "            BundleBuilder bundle{binding_for(bundle_meta, \"capture_delta\")};\n            bundle.set(\"added\", added.build());\n            bundle.set(\"removed\", removed.build());", "replace": "            BundleBuilder bundle{binding_for(bundle_meta, \"capture_delta\")};\n            bundle.set(\"added\", removed.build());\n            bundle.set(\"removed\", added.build());"}]},
     {"id": "b-removed-from-added", "expect": "C20.b", "edits": [{"file": DELTA, "find": "            SetBuilder removed{elem_binding};\n            for (const auto &e : set.removed())", "replace": "            SetBuilder removed{elem_binding};\n            for (const auto &e : set.added())"}]},
